@@ -1043,6 +1043,13 @@ def r9_canonical_paths(ctx, rep):
     from . import c19
     c19.r3_resolved_paths(ctx, rep)
 
+
+def r10_graph_links(ctx, rep):
+    """graph links (SVG nodes and table-form graphs) use the prepared, depth-prefixed and visibility-gated
+    attribs['URL'] - shared with C05.R5"""
+    from . import c05
+    c05.r5_graph_links_and_constructor(ctx, rep)
+
 RULES = [
     RuleSpec("C09.R7", r7_pageable_entities_get_pages, "entities that have a page URL get a page", floor=12),
     RuleSpec("C09.R8", r8_anchor_targets_exist, "anchors of linkable members are emitted unconditionally", floor=16),
@@ -1053,4 +1060,5 @@ RULES = [
     RuleSpec("C09.R5", r5_dirs, "directories and page names agree", floor=15),
     RuleSpec("C09.R6", r6_graph_urls, "links only to visible entities", floor=1),
     RuleSpec("C09.R9", r9_canonical_paths, "configured paths are canonical (shared with C19.R3)", floor=1),
+    RuleSpec("C09.R10", r10_graph_links, "graph links go through the prepared node URL (shared with C05.R5)", floor=2),
 ]
